@@ -84,6 +84,7 @@ func Run(r *core.Run) {
 		{"ecdsa-signing", 0, full, false}, {"ecdsa-signing", 1, full, false},
 	}
 	if full {
+		plans = append(plans, plan{"ecdsa-resharing-3old", 2, false, false}, plan{"eddsa-resharing-3old", 2, true, true})
 		plans = append(plans,
 			plan{"ecdsa-signing-3", 0, false, false}, plan{"ecdsa-signing-3", 1, false, true}, plan{"ecdsa-signing-3", 2, false, false},
 			plan{"ecdsa-keygen", 0, true, false}, plan{"ecdsa-keygen", 1, true, false},
@@ -99,6 +100,9 @@ func Run(r *core.Run) {
 		plans = append(plans, plan{"ecdsa-keygen-3:KGRound1Message", 0, false, false})
 		// three new members, the deviating new member is not the last one
 		plans = append(plans, plan{"ecdsa-resharing-3new:DGRound2Message1", 2, false, false})
+		// t+2 old members take part and the LAST of them deviates in what it hands to the new members
+		plans = append(plans, plan{"ecdsa-resharing-3old:DGRound3Message1", 2, false, false}, plan{"ecdsa-resharing-3old:DGRound3Message2", 2, false, false},
+			plan{"eddsa-resharing-3old:DGRound3Message1", 2, false, false}, plan{"eddsa-resharing-3old:DGRound3Message2", 2, false, false})
 	}
 	for _, p := range plans {
 		only := ""
